@@ -48,49 +48,7 @@ func runC24(p *core.Prog, r *core.Report) {
 	}
 	// ---------------- R2
 	r2 := r.Rule("C24.R2", "ValidateAndStoreObjectLocally stores only after format, content, size and checksum checks", 5)
-	if vs := p.Func("(*" + putP + "Service).ValidateAndStoreObjectLocally"); vs == nil {
-		r.Fatalf("C24.R2: ValidateAndStoreObjectLocally not found")
-	} else {
-		gs := []core.Guard{
-			core.G("format-valid", core.ErrNil, "(*pkg/core/object.FormatValidator).Validate").Where(func(s core.Site) bool {
-				a := s.Call.Common().Args // v, ctx, obj, unprepared, allowAllVersions
-				c, ok := a[3].(*ssa.Const)
-				return ok && !constTrue(c) && core.RootParam(vs, a[2]) == 2
-			}),
-			core.G("content-valid", core.ErrNil, "(*pkg/core/object.FormatValidator).ValidateContent").Where(func(s core.Site) bool {
-				return core.RootParam(vs, s.Call.Common().Args[2]) == 2
-			}),
-			core.G("checksum-matches", core.IsTrue, "bytes.Equal"),
-			{Name: "declared-size-is-payload-size", Comps: []core.Comp{{Result: -1, Kind: core.IsFalse}}, Value: func(_ *ssa.Function, v ssa.Value) bool {
-				bo, ok := v.(*ssa.BinOp) // payloadSz != uint64(len(payload))
-				if !ok || bo.Op.String() != "!=" {
-					return false
-				}
-				isLen := func(x ssa.Value) bool {
-					c, ok := core.Unwrap(x).(*ssa.Call)
-					return ok && core.CalleeName(c) == "builtin.len"
-				}
-				return isLen(bo.X) || isLen(bo.Y)
-			}},
-			{Name: "within-size-limit", Comps: []core.Comp{{Result: -1, Kind: core.IsFalse}}, Value: func(_ *ssa.Function, v ssa.Value) bool {
-				bo, ok := v.(*ssa.BinOp) // payloadSz > maxPayloadSz
-				if !ok || bo.Op.String() != ">" {
-					return false
-				}
-				c, isC := bo.Y.(*ssa.Call)
-				return isC && strings.HasSuffix(core.CalleeName(c), ").MaxObjectSize")
-			}},
-		}
-		core.CheckEffectsFn(p, r2, vs, core.EffectRule{Min: 1, Guards: gs, Effect: core.CallTo(putP + "putObjectLocally")})
-		// the checksum compared is SHA-256 of the object's payload with the header's checksum value
-		okSum := false
-		for _, s := range core.CallSites([]*ssa.Function{vs}, func(s core.Site) bool { return s.Name == "crypto/sha256.Sum256" }) {
-			if c, isC := s.Call.Common().Args[0].(*ssa.Call); isC && strings.HasSuffix(core.CalleeName(c), "object.Object).Payload") {
-				okSum = true
-			}
-		}
-		r2.Check(okSum, core.FuncName(vs)+"#sha256(payload)", p.Pos(vs.Pos()), "the compared digest is SHA-256 of the object's own payload", "the digest compared with the header checksum is not SHA-256 of the object's payload")
-	}
+	replicaFullyValidated(p, r, r2)
 	// ---------------- R3 composition
 	r3 := r.Rule("C24.R3", "every installed target is a validating target with a format validator; distributed targets are created only inside one", 4)
 	it := p.Func("(*" + putP + "Streamer).initTarget")
@@ -453,4 +411,51 @@ func runC24(p *core.Prog, r *core.Report) {
 	}
 	r.Explain += " (R9) the checksum comparison of R4 is over this stream's bytes only: the hasher stored in the validating target comes from a hash constructor (or from a helper that resets what it hands out)."
 
+}
+
+// replicaFullyValidated: shared by C24.R2 and C31.R6.
+func replicaFullyValidated(p *core.Prog, r *core.Report, r2 *core.RuleH) {
+	if vs := p.Func("(*" + putP + "Service).ValidateAndStoreObjectLocally"); vs == nil {
+		r.Fatalf("%s: ValidateAndStoreObjectLocally not found", r2.ID())
+	} else {
+		gs := []core.Guard{
+			core.G("format-valid", core.ErrNil, "(*pkg/core/object.FormatValidator).Validate").Where(func(s core.Site) bool {
+				a := s.Call.Common().Args // v, ctx, obj, unprepared, allowAllVersions
+				c, ok := a[3].(*ssa.Const)
+				return ok && !constTrue(c) && core.RootParam(vs, a[2]) == 2
+			}),
+			core.G("content-valid", core.ErrNil, "(*pkg/core/object.FormatValidator).ValidateContent").Where(func(s core.Site) bool {
+				return core.RootParam(vs, s.Call.Common().Args[2]) == 2
+			}),
+			core.G("checksum-matches", core.IsTrue, "bytes.Equal"),
+			{Name: "declared-size-is-payload-size", Comps: []core.Comp{{Result: -1, Kind: core.IsFalse}}, Value: func(_ *ssa.Function, v ssa.Value) bool {
+				bo, ok := v.(*ssa.BinOp) // payloadSz != uint64(len(payload))
+				if !ok || bo.Op.String() != "!=" {
+					return false
+				}
+				isLen := func(x ssa.Value) bool {
+					c, ok := core.Unwrap(x).(*ssa.Call)
+					return ok && core.CalleeName(c) == "builtin.len"
+				}
+				return isLen(bo.X) || isLen(bo.Y)
+			}},
+			{Name: "within-size-limit", Comps: []core.Comp{{Result: -1, Kind: core.IsFalse}}, Value: func(_ *ssa.Function, v ssa.Value) bool {
+				bo, ok := v.(*ssa.BinOp) // payloadSz > maxPayloadSz
+				if !ok || bo.Op.String() != ">" {
+					return false
+				}
+				c, isC := bo.Y.(*ssa.Call)
+				return isC && strings.HasSuffix(core.CalleeName(c), ").MaxObjectSize")
+			}},
+		}
+		core.CheckEffectsFn(p, r2, vs, core.EffectRule{Min: 1, Guards: gs, Effect: core.CallTo(putP + "putObjectLocally")})
+		// the checksum compared is SHA-256 of the object's payload with the header's checksum value
+		okSum := false
+		for _, s := range core.CallSites([]*ssa.Function{vs}, func(s core.Site) bool { return s.Name == "crypto/sha256.Sum256" }) {
+			if c, isC := s.Call.Common().Args[0].(*ssa.Call); isC && strings.HasSuffix(core.CalleeName(c), "object.Object).Payload") {
+				okSum = true
+			}
+		}
+		r2.Check(okSum, core.FuncName(vs)+"#sha256(payload)", p.Pos(vs.Pos()), "the compared digest is SHA-256 of the object's own payload", "the digest compared with the header checksum is not SHA-256 of the object's payload")
+	}
 }
